@@ -27,12 +27,22 @@ structure NdlCfg where
   perFile : Nat     -- events_per_temporary_file
 deriving Repr
 
+/-- exception classes as the harness distinguishes them (harness/common.py
+    `classify`): `ValueError`, `OSError`/`IOError`, `KeyError`, `TypeError`, and
+    `other` = everything else — here `OverflowError` (a chunk size that does not
+    fit `unsigned int` / `int.to_bytes(4)`) and `ZeroDivisionError`
+    (`n_outcomes_per_job = 0` under OpenMP). -/
 inductive Err where
   | value | io | key | type | other
 deriving Repr, BEq, DecidableEq
 
-/-- names in order of first occurrence (the `Counter` key order for `n_jobs=1`;
-    for other `n_jobs` the order is a permutation — irrelevant by `label_eq`). -/
+/-- names in order of first occurrence (the `Counter` key order for `n_jobs=1`).
+    For other `n_jobs` the counting stage merges per-process `Counter`s and the
+    key order is some other duplicate-free enumeration of the same names; the
+    model has no `n_jobs`, it FIXES first occurrence.  That the learned weights,
+    read through the labels, do not depend on this choice is a theorem:
+    `ndlModelWith_eq_spec` (PyndlProofs/LabelOrder.lean) proves the end-to-end
+    statement for ANY duplicate-free label lists that contain the names. -/
 def countNames (es : List (Event String String)) : List String × List String :=
   (dedupKeepFirst (es.flatMap (·.cues)), dedupKeepFirst (es.flatMap (·.outcomes)))
 
@@ -58,7 +68,16 @@ def extendVals (old : Array R) (oldRows oldCols newRows newCols : Nat) : Array R
 /-- number of conversion jobs that find events: `⌈n / per⌉` -/
 def nChunks (n per : Nat) : Nat := (n + per - 1) / per
 
-/-- the chunk files in numeric order, or the first duplicate error -/
+/-- the chunk files in numeric order, or the first error of a conversion job
+    (`create_binary_event_files`, preprocess.py:759-884; the jobs run one after
+    the other here — the result does not depend on `n_jobs` BY CONSTRUCTION, the
+    submit loop with its completion orders is `PyndlModel.Chunking`).
+    * A repeated cue/outcome under `remove_duplicates=None` in some window:
+      `ValueError` (`.value`).
+    * `events_per_file ≥ 2³²`: every job writes the estimate
+      `stop - start = events_per_file` into its header first and fails with
+      `OverflowError` (`.other`); job 0 is always submitted — also for an event
+      file with zero events —, hence the guard in front of the loop. -/
 def makeChunks (magic version : Nat) (p : DupPolicy) (ids : List (Event Nat Nat)) (per : Nat) :
     Except Err (List Bytes × Nat) :=
   let rec go (fuel j : Nat) (files : List Bytes) (total : Nat) : Except Err (List Bytes × Nat) :=
@@ -66,10 +85,12 @@ def makeChunks (magic version : Nat) (p : DupPolicy) (ids : List (Event Nat Nat)
     | 0 => .ok (files.reverse, total)
     | fuel + 1 =>
       match writeEvents magic version p ids (j * per) ((j + 1) * per) with
+      | (_, .overflow) => .error .other
       | (_, .dupError _) => .error .value
       | (some f, .ok n) => go fuel (j + 1) (f :: files) (total + n)
       | (some f, .stopped n) => go fuel (j + 1) (f :: files) (total + n)
       | _ => go fuel (j + 1) files total
+  if 4294967296 ≤ per then .error .other else
   go (nChunks ids.length per) 0 [] 0
 
 def decodeAll (magic version : Nat) : List Bytes → Except Err (List (List (Event Nat Nat)))
@@ -82,16 +103,38 @@ def decodeAll (magic version : Nat) : List Bytes → Except Err (List (List (Eve
       | .error e => .error e
       | .ok r => .ok (es :: r)
 
-def ndlModel (magic version : Nat) (cfg : NdlCfg) (alpha β₁ β₂ lam : R) (W0 : Option (LW R))
-    (es : List (Event String String)) : Except Err (LW R × Nat) :=
-  let (cuesNew, outsNew) := countNames es
-  let (cues, outs, vals) : List String × List String × Array R :=
-    match W0 with
-    | none => (cuesNew, outsNew, Array.replicate (outsNew.length * cuesNew.length) 0)
-    | some w =>
-      let cues := w.cues ++ cuesNew.filter (fun c => !w.cues.contains c)
-      let outs := w.outcomes ++ outsNew.filter (fun o => !w.outcomes.contains o)
-      (cues, outs, extendVals w.vals w.outcomes.length w.cues.length outs.length cues.length)
+/-- the OpenMP parts as the Cython code computes them: `length_all_outcomes`,
+    `chunksize`, `start_val`, `end_val` are `unsigned int` (`ompBounds32`:
+    wrap-around mod 2³²); a part whose `end_val` wrapped below `start_val` is an
+    empty `range(start, end)`. -/
+def ompParts32 {α : Type} (xs : List α) (chunk : Nat) : List (List α) :=
+  (ompBounds32 (UInt32.ofNat xs.length) (UInt32.ofNat chunk)).map
+    (fun (s, e) => (xs.drop s.toNat).take (e.toNat - s.toNat))
+
+/-- `learnOpenmpSeq` with the 32-bit part bounds -/
+def learnOpenmpSeq32 (alpha β₁ β₂ lam : R) (nCues : Nat) (files : List (List (Event Nat Nat)))
+    (allOutcomes : List Nat) (chunk : Nat) (w : Array R) : Array R :=
+  files.foldl (fun w f =>
+    (ompParts32 allOutcomes chunk).foldl (fun w rows => kernelFile alpha β₁ β₂ lam nCues rows w f) w) w
+
+/-- `ndl.ndl` (ndl.py:201-291) once the label lists `cues`, `outs` (= the id
+    maps: a name's id is its position) and the initial values are fixed:
+    conversion to chunk files, decoding by the kernels' reader, learning.
+    Argument errors, in the order the code raises them:
+    * `events_per_temporary_file < 2`: `ValueError`; `≥ 2³²`: `OverflowError`
+      (`makeChunks`); a rejected duplicate: `ValueError` — all during conversion;
+    * threading, `n_outcomes_per_job < 1`: `ValueError` (`slice_list`);
+    * openmp, `n_outcomes_per_job ≥ 2³²`: `OverflowError` (`unsigned int
+      chunksize`, ndl_openmp.pyx:31) when the entry point is called;
+      `n_outcomes_per_job = 0`: `ZeroDivisionError` in
+      `math.ceil(<double> length / chunksize)`, which stands INSIDE the loop over
+      the chunk files — with no chunk file it is not reached (then `ndlCall`
+      raises `IOError`).
+    The parts of the OpenMP method are computed in `unsigned int` arithmetic
+    (`ompParts32`); they are the unbounded ones when
+    `n_outcomes + n_outcomes_per_job < 2³²` (`ompParts32_eq`). -/
+def ndlCore (magic version : Nat) (cfg : NdlCfg) (alpha β₁ β₂ lam : R) (cues outs : List String)
+    (vals : Array R) (es : List (Event String String)) : Except Err (LW R × Nat) :=
   if cfg.perFile < 2 then .error .value else
   let ids := es.map (toIds cues outs)
   match makeChunks magic version cfg.policy ids cfg.perFile with
@@ -101,11 +144,34 @@ def ndlModel (magic version : Nat) (cfg : NdlCfg) (alpha β₁ β₂ lam : R) (W
     | .error e => .error e
     | .ok chunks =>
       let allOut := List.range outs.length
-      if cfg.perJob < 1 then .error .value else
-      let vals' := match cfg.method with
-        | .threading => learnThreadingSeq alpha β₁ β₂ lam cues.length chunks allOut cfg.perJob vals
-        | .openmp => learnOpenmpSeq alpha β₁ β₂ lam cues.length chunks allOut cfg.perJob vals
-      .ok (⟨outs, cues, vals'⟩, total)
+      match cfg.method with
+      | .threading =>
+        if cfg.perJob < 1 then .error .value else
+        .ok (⟨outs, cues, learnThreadingSeq alpha β₁ β₂ lam cues.length chunks allOut cfg.perJob vals⟩, total)
+      | .openmp =>
+        if 4294967296 ≤ cfg.perJob then .error .other
+        else if cfg.perJob < 1 ∧ !chunks.isEmpty then .error .other
+        else .ok (⟨outs, cues, learnOpenmpSeq32 alpha β₁ β₂ lam cues.length chunks allOut cfg.perJob vals⟩, total)
+
+/-- `ndl.ndl` (ndl.py:76-291) on a parsed event file: count the names
+    (`countNames`), from scratch label with them and start from zeros, with
+    `weights=` append the NEW names to the given labels and extend the given
+    values by zeros (ndl.py:173-198); then `ndlCore`.
+    `weights=` with duplicate labels is outside the model: `idxOf` gives a name
+    its FIRST position, Python's `OrderedDict((name, ii) …)` the LAST; the
+    theorems about continued learning carry `Nodup` on the given labels. -/
+def ndlModel (magic version : Nat) (cfg : NdlCfg) (alpha β₁ β₂ lam : R) (W0 : Option (LW R))
+    (es : List (Event String String)) : Except Err (LW R × Nat) :=
+  let (cuesNew, outsNew) := countNames es
+  match W0 with
+  | none =>
+    ndlCore magic version cfg alpha β₁ β₂ lam cuesNew outsNew
+      (Array.replicate (outsNew.length * cuesNew.length) 0) es
+  | some w =>
+    let cues := w.cues ++ cuesNew.filter (fun c => !w.cues.contains c)
+    let outs := w.outcomes ++ outsNew.filter (fun o => !w.outcomes.contains o)
+    ndlCore magic version cfg alpha β₁ β₂ lam cues outs
+      (extendVals w.vals w.outcomes.length w.cues.length outs.length cues.length) es
 
 /-- `ndl.ndl` as it is CALLED, including an event file with ZERO events: then no
     chunk file is written and a kernel entry point that is called returns its
